@@ -1,4 +1,5 @@
 import Pyxv.Proofs.C03Text
+import Pyxv.Proofs.C03Tree
 /-!
 # C03: the occurrence flags computed from the cell text, and `insert_xpaths` from the text alone
 -/
@@ -49,6 +50,30 @@ theorem in_predicate_after_nested (a b occ rest : Str) (hinst : reInstanceSearch
 theorem not_in_predicate_at_depth_zero (whole : Str) (start end_ : Nat)
     (h : bracketDepth 0 (whole.take start) = 0) : inPredicateAt whole start end_ = false := by
   simp [inPredicateAt, h]
+
+/-! ### indexed-repeat: texts without the call are never forced absolute -/
+
+theorem indexedRepeatMatches_nil (fuel pos : Nat) (s : Str) (h : isInfix indexedTag s = false) :
+    indexedRepeatMatches fuel pos s = [] := by
+  induction fuel generalizing pos s with
+  | zero => rfl
+  | succ fuel ih =>
+    cases s with
+    | nil => rfl
+    | cons c r =>
+      have h' : startsWith (c :: r) indexedTag = false ∧ isInfix indexedTag r = false := by
+        simpa [isInfix] using h
+      rw [indexedRepeatMatches]
+      simp only [h'.1, Bool.false_eq_true, ↓reduceIte]
+      exact ih _ _ h'.2
+
+/-- **no_indexed_repeat_relative**: in a cell without `indexed-repeat(` no occurrence is absolute-by-design
+(`is_indexed_repeat` is false, `_is_return_relative_path` returns True for every ordinary reference). -/
+theorem no_indexed_repeat_relative (whole : Str) (start end_ : Nat) (name : Str)
+    (h : isInfix indexedTag whole = false) : indexedArgAt whole start end_ name = some false := by
+  unfold indexedArgAt
+  rw [indexedRepeatMatches_nil _ _ _ h]
+  rfl
 
 /-! ### `insert_xpaths` from the cell text: no `${` survives -/
 
@@ -159,6 +184,28 @@ theorem insert_xpaths_no_token (els : List Chain) (hv : ∀ t ∈ els, GoodNames
       | unknown m => rw [hr] at hv'; simp [Out.text] at hv'
       | ambiguous m => rw [hr] at hv'; simp [Out.text] at hv'
   · cases hv'
+
+/-- **relative_when_enclosed_text.**  From the cell text alone: in a cell without `indexed-repeat(`, a plain
+`${name}` whose target's innermost enclosing repeat also encloses the referrer is replaced by a relative path, anchored
+with `current()` exactly when the call site asks for it or the occurrence sits in an instance predicate — for every
+well-formed tree (only what pyxform validates is assumed). -/
+theorem relative_when_enclosed_text (tree : El) (hwf : tree.WF) (hroot : tree.kind ≠ .rep)
+    (c t : Chain) (hc : c ∈ tree.chains []) (name : Str)
+    (hlook : (tree.chains []).filter (named name) = [t])
+    (r : Nat) (hrt : r < t.length) (hrc : r < c.length)
+    (hrep : Chain.isRep (t.take r) = true)
+    (hinner : ∀ j, r < j → j < t.length → Chain.isRep (t.take j) = false)
+    (henc : c.take r = t.take r)
+    (uc rp : Bool) (whole atStart rest : Str) (hir : isInfix indexedTag whole = false) :
+    ∃ k d, replAt (tree.chains []) (some c) uc rp whole atStart rest false name =
+      some (.ok (uc || inPredicateAt whole (whole.length - atStart.length) (whole.length - rest.length)) (.rel k d)) := by
+  unfold replAt
+  simp only [no_indexed_repeat_relative whole _ _ name hir]
+  obtain ⟨k, d, h⟩ := relative_when_enclosed_tree tree hwf hroot c t hc name
+    { lastSaved := false, indexedArg := false,
+      inPredicate := inPredicateAt whole (whole.length - atStart.length) (whole.length - rest.length),
+      useCurrent := uc, referenceParent := rp } hlook r hrt hrc hrep hinner henc rfl rfl
+  exact ⟨k, d, by rw [h]⟩
 
 /-! ### non-vacuity and the shapes of the repaired findings -/
 
